@@ -285,6 +285,9 @@ def annotation_target_paths(facts, rep, vs):
             continue
         ins = [bb for bb, t in b.calls() if (callee_name(t) or "").endswith("ContextMappings::insert_node") and not b.is_cleanup(bb)]
         addann = [bb for bb, t in b.calls() if callee_name(t) == "graphs::Node::add_annotation" and not b.is_cleanup(bb)]
+        # a copy helper creates the node AND puts the annotations on it: its call site is an annotating site as well
+        helper_sites = [bb for bb, t in b.calls() if callee_name(t) in copy_helpers(facts) and not b.is_cleanup(bb)]
+        addann = addann + helper_sites
         if not ins or not addann:
             continue
         lp = None
@@ -310,9 +313,12 @@ def annotation_target_paths(facts, rep, vs):
                 if a not in live:
                     continue
                 ta = b.term(a)
-                if not any(o[0] == "call" and o[2] == "graphs::Node::get_annotations" for o in fl.origins(ta["args"][1], (a, None))):
-                    continue
-                recv = {o for o in fl.origins(ta["args"][0], (a, None)) if o[0] == "call"}
+                if a in helper_sites:
+                    recv = {("call", a, callee_name(ta))}
+                else:
+                    if not any(o[0] == "call" and o[2] == "graphs::Node::get_annotations" for o in fl.origins(ta["args"][1], (a, None))):
+                        continue
+                    recv = {o for o in fl.origins(ta["args"][0], (a, None)) if o[0] == "call"}
                 for i in ins:
                     if i not in live:
                         continue
